@@ -132,7 +132,7 @@ def check_on(t, p, R):
                 continue
             wf, why = build.wellformed(bt)
             R.check(wf, "branchtree:wellformed", lambda: f"p={p} {why}")
-            R.retain(nm, lambda bt=bt: (build.canon_tree(bt), sorted((int(k), [b.xyzr().tolist() for b in v]) for k, v in bt.branches.items())))
+            R.retain(nm, lambda bt=bt: (build.canon_tree(bt), sorted((int(k), len(v), [b.xyzr().tolist() for b in v[:40]]) for k, v in bt.branches.items())))
             btags = build.tags_xyz(bt)
             crit = sorted({0} | set(ref.furcations(p)) | set(ref.tips(p)))
             R.check(sorted(btags) == sorted(tags[i] for i in crit), "branchtree:nodes",
